@@ -285,4 +285,34 @@ func init() {
 		c.Weights["slotadd"] = 0
 		c.Weights["xslots"] = 4
 	}}
+
+	// migration from a built-in StatefulSet (C18)
+	profiles["migrate"] = &Profile{Name: "migrate", Tweak: func(r *PRNG, c *Config) {
+		c.Sets = c.Sets[:1]
+		sc := &c.Sets[0]
+		sc.Replicas = int32(r.Range(1, 4))
+		sc.Slots = nil
+		sc.Paused = false
+		sc.ExprSelector = false
+		sc.HistoryLimit = 10
+		if sc.Claims > 1 {
+			sc.Claims = 1
+		}
+		c.KubeProgressOnly = true
+		c.Weights = map[string]int{"worker": 30, "release": 70, "deliver": 50, "deliverall": 4, "kube": 10, "gc": 20, "bctl": 4,
+			"upgrade": 8, "prel": 40, "advance": 6, "crash": 1, "relist": 1}
+		if r.Chance(0.5) {
+			c.Weights["crash"] = 0
+		}
+		c.Chaos = r.Range(30, 160)
+	}, Prefix: func(r *PRNG, c *Config) []Step {
+		out := []Step{{K: "mkbset", A: 0, B: r.Intn(4), C: r.Intn(6), D: r.Intn(1000)}}
+		if r.Chance(0.7) {
+			out = append(out, Step{K: "boot"})
+		}
+		if r.Chance(0.5) {
+			out = append(out, Step{K: "upgrade", A: 0})
+		}
+		return out
+	}}
 }
